@@ -23,8 +23,10 @@ Definition gput (i : Z) (w : wterm) (stmt : pbval str) : pbval str :=
   msg_set (grp i) (pre i ++ suffix w)%string (wmsg w) stmt.
 
 Notation gs_spo_fuel := (GenericSinkTermEncoder_encode_spo_fuel SN).
-Definition gs_spo (tm : term) := GenericSinkTermEncoder_encode_spo SN (obj_of_term tm).
-Definition gs_graph (tm : term) := GenericSinkTermEncoder_encode_graph SN (obj_of_term tm).
+(* the dispatchers exactly as the translated Stream methods of this integration are given them (the term objects are the
+   translated classes of generic_sink.py, `obj`; the model's terms embed in them by obj_of_term) *)
+Definition gs_spo := GenericSinkTermEncoder_encode_spo SN.
+Definition gs_graph := GenericSinkTermEncoder_encode_graph SN.
 Notation grmsg := (rmsg gput).
 Notation gbuilding := (building gput).
 
@@ -214,13 +216,13 @@ Qed.
 Print Assumptions gs_spo_fuel_tie.
 
 (* ------------------------------------------------------------------ the premises of EncodeStmtTie.v / StreamsTie.v, proved *)
-Theorem generic_sim_spo : sim_spo E.Generic gs_spo gput.
+Theorem generic_sim_spo : sim_spo E.Generic obj_of_term gs_spo gput.
 Proof.
   intros tm i stmt g m HR Hi Hb. unfold gs_spo, GenericSinkTermEncoder_encode_spo.
   apply gs_spo_fuel_tie; try assumption. rewrite obj_depth_of_term. apply le_n.
 Qed.
 
-Theorem generic_sim_graph : sim_graph E.Generic gs_graph gput.
+Theorem generic_sim_graph : sim_graph E.Generic obj_of_term gs_graph gput.
 Proof.
   intros tm stmt g m HR Hb. unfold gs_graph, GenericSinkTermEncoder_encode_graph, E.encode_graph_term.
   destruct tm as [iri|l|lex lang dt|s p o| |]; cbn [obj_of_term is_O__DefaultGraph is_O_IRI is_O_Literal is_O_BlankNode is_O_Triple];
@@ -253,11 +255,11 @@ Print Assumptions generic_sim_graph.
 (* ------------------------------------------------------------------ hence, for the generic integration, with nothing assumed
    about its dispatchers: the statement level of encode.py and the Stream classes (the theorems of EncodeStmtTie.v and
    StreamsTie.v at the translated dispatchers) *)
-Definition generic_encode_triple_is_model := source_encode_triple_is_model E.Generic gs_spo gput generic_sim_spo.
-Definition generic_encode_quad_is_model := source_encode_quad_is_model E.Generic gs_spo gs_graph gput generic_sim_spo generic_sim_graph.
-Definition generic_stream_triple_is_model := source_stream_triple_is_model E.Generic gs_spo gput generic_sim_spo.
-Definition generic_stream_quad_is_model := source_stream_quad_is_model E.Generic gs_spo gs_graph gput generic_sim_spo generic_sim_graph.
-Definition generic_stream_graph_is_model := source_stream_graph_is_model E.Generic gs_spo gs_graph gput generic_sim_spo generic_sim_graph.
+Definition generic_encode_triple_is_model := source_encode_triple_is_model E.Generic obj_of_term (obj_eqb SN) source_term_eq_is_model gs_spo gput generic_sim_spo.
+Definition generic_encode_quad_is_model := source_encode_quad_is_model E.Generic obj_of_term (obj_eqb SN) source_term_eq_is_model gs_spo gs_graph gput generic_sim_spo generic_sim_graph.
+Definition generic_stream_triple_is_model := source_stream_triple_is_model E.Generic obj_of_term (obj_eqb SN) source_term_eq_is_model gs_spo gput generic_sim_spo.
+Definition generic_stream_quad_is_model := source_stream_quad_is_model E.Generic obj_of_term (obj_eqb SN) source_term_eq_is_model gs_spo gs_graph gput generic_sim_spo generic_sim_graph.
+Definition generic_stream_graph_is_model := source_stream_graph_is_model E.Generic obj_of_term (obj_eqb SN) source_term_eq_is_model gs_spo gs_graph gput generic_sim_spo generic_sim_graph.
 
 Print Assumptions generic_encode_triple_is_model.
 Print Assumptions generic_encode_quad_is_model.
